@@ -56,7 +56,11 @@ def main():
     results = {}
     try:
         for p in props:
+            # the check rewrites evidence/<p>.json: keep the unchanged tree's evidence, not the mutant's
+            ev = os.path.join(ROOT, "evidence", f"{p}.json")
+            saved = open(ev).read() if os.path.exists(ev) else None
             rc, out = sh(f"./check {p} --tier quick", ROOT)
+            if saved is not None: open(ev, "w").write(saved)
             lines = [l for l in out.splitlines() if l.startswith(("VIOLATION", "OK ", "KNOWN", "#"))]
             results[p] = {"exit": rc, "lines": lines}
             rp = os.path.join(ROOT, "replays", f"{p}-quick-1.json")
